@@ -245,6 +245,52 @@ func EmptyBody(kids []*SNode) []*DNode {
 	return out
 }
 
+// Flatten splices the nodes of every case of every choice into the enclosing body (schema and data alike):
+// what a reader or writer of data sees, since choices and cases have no representation in data.
+// Leaf DNodes are shared with the input, containers and rows are copied.
+func Flatten(kids []*SNode, body []*DNode) ([]*SNode, []*DNode) {
+	var fk []*SNode
+	var fb []*DNode
+	for i, s := range kids {
+		d := body[i]
+		switch s.Kind {
+		case "choice":
+			for ci, cs := range s.Cases {
+				k2, b2 := Flatten(cs.Kids, d.Cases[ci])
+				fk = append(fk, k2...)
+				fb = append(fb, b2...)
+			}
+		case "cont":
+			s2 := *s
+			d2 := &DNode{Present: d.Present}
+			sub := d.Kids
+			if sub == nil {
+				sub = EmptyBody(s.Kids)
+			}
+			s2.Kids, d2.Kids = Flatten(s.Kids, sub)
+			if !d.Present {
+				d2.Kids = nil
+			}
+			fk = append(fk, &s2)
+			fb = append(fb, d2)
+		case "list":
+			s2 := *s
+			s2.Kids, _ = Flatten(s.Kids, EmptyBody(s.Kids))
+			d2 := &DNode{}
+			for _, row := range d.Rows {
+				_, rb := Flatten(s.Kids, row.Kids)
+				d2.Rows = append(d2.Rows, &DRow{Key: row.Key, Kids: rb})
+			}
+			fk = append(fk, &s2)
+			fb = append(fb, d2)
+		default:
+			fk = append(fk, s)
+			fb = append(fb, d)
+		}
+	}
+	return fk, fb
+}
+
 // ---------------------------------------------------------------- token encoding (Lean line protocol)
 
 func hexTok(s string) string { return "h" + core.Hex(s) } // "h-" = empty string, "~" = none
